@@ -171,11 +171,15 @@ func (c *Calcium) doCreateWorkloads(ctx context.Context, opts *types.DeployOptio
 					return
 				}
 				for nodename, rollbackIndices := range rollbackMap {
-					if e := c.withNodePodLocked(ctx, nodename, func(ctx context.Context, _ *types.Node) error {
+					if e := c.withNodePodLocked(ctx, nodename, func(ctx context.Context, node *types.Node) error {
 						rollbackResources := utils.Map(rollbackIndices, func(idx int) resourcetypes.Resources {
 							return workloadResourcesMap[nodename][idx]
 						})
-						return c.rmgr.RollbackAlloc(ctx, nodename, rollbackResources)
+						err := c.rmgr.RollbackAlloc(ctx, nodename, rollbackResources)
+						// the remap of doDeployWorkloadsOnNode may have run before these resources were given back,
+						// remap again so that the share pool includes them
+						_ = c.pool.Invoke(func() { c.RemapResourceAndLog(ctx, logger, node) })
+						return err
 					}); e != nil {
 						logger.Error(ctx, e)
 						err = e
